@@ -22,6 +22,9 @@
 //	D  (only in a -race build) concurrent use: weight changes against GetSubmissionSession,
 //	   RefreshRoots against concurrent AddChain, Proxy log-list refresh against AddChain.
 //	P  postInterval grid.
+//	W  histories on the ctpolicy group API (weights_test.go): accepted and refused SetLogWeights /
+//	   SetLogWeight calls interleaved with GetSubmissionSession and GetSCTs on the SAME groups,
+//	   judged against a reference copy of the weights kept by hand.
 //
 // PropOK is the property's sentence evaluated directly on the observations.
 //
@@ -2120,6 +2123,7 @@ func timedStreams(t *testing.T, r *mrand.Rand, w adder) {
 	streamShared(t, r, w, lib.Count(1, 12))
 	streamDist(t, r, w, lib.Count(100, 1600))
 	streamPost(t, r, w, lib.Count(6, 60))
+	streamWeights(t, r, w, lib.Count(70, 1000)) // last: the scenarios of the streams above keep their case ids
 }
 
 // In a -race build the bulk streams run in a child process that is retried when it dies of
